@@ -313,6 +313,15 @@ func c08Pads(c *vrep.Ctx) {
 func c08Faults(c *vrep.Ctx) {
 	c08Trace = c.Param("trace", "off") == "all"
 	cl, docs := c08Classifier()
+	switch c.Param("corpus", "") {
+	case "empty":
+		// a classifier without any document (NewClassifier alone; LoadLicenses of a directory without
+		// license files): nothing can match, a reader fault is a fault all the same
+		cl = NewClassifier(0.8)
+	case "one-empty-document":
+		cl = NewClassifier(0.8)
+		cl.AddContent("License", "Empty", "license.txt", nil)
+	}
 	all := c08Inputs(docs, c.Pick(2, 6))
 	var inputs [][]byte
 	for _, in := range all {
